@@ -1,7 +1,8 @@
 #!/venv/bin/python
 """merge_findings.py <other known_findings.json> — append findings whose id /verif's file lacks (fixed: lines are recorded by hand with the /repo hashes)."""
 import json, sys
-p = "/verif/known_findings.json"
+import os
+p = os.environ.get("INTEGRATE_INTO", "/verif") + "/known_findings.json"
 k, o = json.load(open(p)), json.load(open(sys.argv[1]))
 have = {f["id"] for f in k["findings"]}
 for f in o["findings"]:
